@@ -25,7 +25,7 @@ NONTRIVIAL = ('the FIBER run of the case took more than one adaptive split step 
 # ----------------------------------------------------------------------------- alphabet
 AXES = [  # (name, values) - baseline first
     ('kind',   ['gauss', 'nrz', 'rand', 'cw', 'lead0']),
-    ('N',      [64, 128, 256]),
+    ('N',      [64, 128, 256, 65]),      # 65: odd length (fftshift and ifftshift differ)
     ('P',      [0.1, 1e-3, 0.5, 1e-9]),      # peak power per polarisation row [W]; 1e-9 W (-60 dBm): the first step of a
                                              # naive phi_max/(gamma*P) rule is 1e7 km, exp(-alpha*h/2) underflows
     ('L',      [20.0, 1.0, 100.0]),          # km
